@@ -328,7 +328,7 @@ func init() {
 			"non-trivial = non-empty diff; distinct = distinct (a, b, options)",
 		Floors: map[string]int{"hunks_checked": 50000, "leave_one_out_diffs": 10000, "leave_one_out_patches": 50000, "checked_set_hunk": 3000,
 			"checked_multiset_hunk": 3000, "checked_merge_hunk": 3000, "checked_key_hunk": 5000, "hunk_list": 5000,
-			"a_is_patch_result": 3000, "b_is_patch_result": 3000, "precision_hunks_checked": 5000, "precision_leave_one_out": 3000},
+			"a_is_patch_result": 3000, "b_is_patch_result": 3000, "precision_hunks_checked": 5000, "same_document_shared_identities": 3000, "precision_leave_one_out": 3000},
 		Assumptions: []string{
 			"paths through list indices are relative to intermediate document states; those hunks are judged by stepwise reference interpretation (applies, changes the state) and by leave-one-out",
 			"keyed members (SetKeys): a member object added by a set hunk is identified by its key tuple, not by its whole value",
@@ -377,6 +377,26 @@ func init() {
 				a, b := PairFor(c.R, o, prof)
 				c.Feature("zero_sign_pairs")
 				c07Judge(c, ref.ToJSON(a), ref.ToJSON(b), o)
+			},
+		})
+	}
+	for _, o := range []OptSet{OptKeys1, OptSetKeys1, OptKeys2} {
+		o := o
+		p.Strata = append(p.Strata, mon.Stratum{
+			Name: "same-document-shared-identities/" + o.Name,
+			N:    qt(3000, 150000),
+			Run: func(c *mon.Ctx, i int) {
+				// a document against a second parse of itself: every hunk would mention equal sub-documents
+				a := sharedIdentityDoc(c.R)
+				aText := ref.ToJSON(a)
+				c.Input("a", aText)
+				c.Input("b", aText)
+				c.Input("options", o.Name)
+				c.Feature("same_document_shared_identities")
+				c.Nontrivial(joinKey("same", aText, o.Name))
+				if hs := Hunks(ReadJ(aText).Diff(ReadJ(aText), o.O()...)); len(hs) > 0 {
+					c.Violation("the diff of a document with itself has hunks: each mentions a sub-document that is equal in a and b", map[string]any{"diff": ref.HunksString(hs)})
+				}
 			},
 		})
 	}
